@@ -27,8 +27,6 @@ F = [
   "undo of insert/delete/move rows/columns does not move hyperlinks back", []),
  ("delete-rows-cf", case([{"CfAdd": {"s":0,"range":"A3:A4","rule":cf}}, {"DeleteRows": {"s":0,"row":1,"n":3}}]),
   "undo of delete rows/columns does not restore conditional-format ranges it cut", []),
- ("insert-rows-cse-array", case([{"ArrayFormula": {"s":0,"row":1,"col":1,"w":1,"h":1,"text":"=SUM(A3:A3)"}}, {"InsertRows": {"s":0,"row":1,"n":1}}]),
-  "row/column insert/delete/move re-types cells: a CSE array formula comes back as a plain formula after undo", []),
  ("insert-cols-quoted-formula", case([inp(1,1,"'=1+1"), {"InsertCols": {"s":0,"col":1,"n":1}}]),
   "row/column insert/delete/move re-types cells: quote-prefixed text '=1+1 comes back as a formula", []),
  ("delete-cols-long-number", case([inp(1,3,"123456789012345678"), {"DeleteCols": {"s":0,"col":1,"n":1}}]),
@@ -100,10 +98,6 @@ F27 = [
   "set_user_array_formula accepts a range that overlaps an existing CSE array: the two array ranges overlap", ["c27-cse-arrays"], False),
  ("cse-array-over-dynamic-spill", c27([inp(5,6,"={1,2;3,4}"), arrf(4,5,2,2,"=A1+0")]),
   "a CSE array formula placed over part of a dynamic spill leaves spill cells whose anchor is no longer an array formula", ["c27-cse-arrays"], False),
- ("insert-rows-orphans-cse-spill", c27([arrf(1,1,2,1,"=A1*A5"), {"InsertRows": {"s":0,"row":5,"n":2}}]),
-  "row/column insert/delete/move re-types the anchor of a CSE array as a plain formula; its spill cells keep naming it as anchor", ["c27-cse-arrays"], False),
- ("move-rows-shrinks-cse-anchor", c27([arrf(3,1,1,2,"=SUM(A1:A1)"), {"MoveRows": {"s":0,"row":1,"n":1,"delta":1}}]),
-  "moving rows next to a CSE array leaves a spill cell outside its anchor's (shrunk) range", ["c27-cse-arrays"], False),
  ("delete-sheet-leaves-scoped-name", c27([{"NewSheet": None} if False else "NewSheet", {"NameNew": {"name":"nm1","scope":1,"formula":"Sheet1!$A$1"}}, {"DeleteSheet": 1}]),
   "delete_sheet leaves defined names scoped to the deleted sheet behind (their sheet id no longer exists)", [], True),
 ]
